@@ -55,6 +55,19 @@ def files():
     m("Tail", P + ".DeleteThingRequest", P + ".Thing", http=("get", "/v1/{name=things/**}:tail"))
     m("Words", P + ".WordsRequest", P + ".Thing", http=("get", "/v1/{name=words/*}"))
     m("TwoVars", P + ".CreateThingRequest", P + ".Thing", http=("post", "/v1/{parent=shelves/*}/things/{thing_id}"), body="thing")
+    # reserved words as path variable and as body field (the generator rewrites both to the python attribute names)
+    G.add_message(fd, "KindRequest", [G.F("type", 1, T.TYPE_STRING), G.F("format", 2, T.TYPE_MESSAGE, type_name=P + ".Inner"), G.F("note", 3, T.TYPE_STRING)])
+    m("ByKind", P + ".KindRequest", P + ".Thing", http=("post", "/v1/{type=kinds/*}/things"), body="format")
+    # DELETE bindings with a body (field / *)
+    G.add_message(fd, "PurgeRequest", [G.F("name", 1, T.TYPE_STRING), G.F("criteria", 2, T.TYPE_MESSAGE, type_name=P + ".Inner"), G.F("dry_run", 3, T.TYPE_BOOL)])
+    m("PurgeThing", P + ".PurgeRequest", P + ".Thing", http=("delete", "/v1/{name=things/*}:purge"), body="criteria")
+    m("WipeThings", P + ".PurgeRequest", P + ".Thing", http=("delete", "/v1/{name=things/*}:wipe"), body="*")
+    # a required scalar that is a path variable of an additional binding only
+    G.add_message(fd, "ListInRequest", [G.F("parent", 1, T.TYPE_STRING, **R), G.F("zone", 2, T.TYPE_STRING, **R), G.F("rack", 3, T.TYPE_INT32, **R),
+                                        G.F("recursive", 4, T.TYPE_BOOL)])
+    li = m("ListIn", P + ".ListInRequest", P + ".Thing", http=("get", "/v1/{parent=shelves/*}/things"))
+    ab = li.options.Extensions[annotations_pb2.http].additional_bindings.add()
+    ab.get = "/v1/{parent=buildings/*}/zones/{zone}/racks/{rack}/things"
     m("NoHttp", P + ".DeleteThingRequest", P + ".Thing")
     return [fd]
 
@@ -166,6 +179,11 @@ REQUESTS = {
     "Tail": [{"name": "things/a/b/c", "reason_code": 4}],
     "Words": [{"name": "words/w", "type": "wooden", "max": 3, "format": "f", "class": "c"}, {"name": "words/w"}],
     "TwoVars": [{"parent": "shelves/s1", "thing_id": "t5", "thing": {"title": "tv"}, "color": 2}],
+    "PurgeThing": [{"name": "things/t1", "criteria": {"id": "old", "level": 3}, "dry_run": True}, {"name": "things/t1"}],
+    "WipeThings": [{"name": "things/t1", "criteria": {"id": "old"}, "dry_run": True}],
+    "ListIn": [{"parent": "shelves/s1"}, {"parent": "shelves/s1", "zone": "z", "rack": 2, "recursive": True},
+               {"parent": "buildings/b1", "zone": "z1", "rack": 4}],
+    "ByKind": [{"type": "kinds/k1", "format": {"id": "f", "level": 2}, "note": "n"}, {"type": "kinds/k2"}],
 }
 
 
@@ -307,8 +325,8 @@ def check_call(call, binds, want, req_cls, numeric):
             try:
                 bj = json.loads(data)
                 json_format.ParseDict(bj, target)
-                if body != "*":
-                    target.SetInParent()
+                if body != "*" and bj:
+                    target.SetInParent()      # an unset body field travels as `{}`: presence of an empty message is not observable in the JSON
                 if _has_enum_encoding(bj, numeric) is False:
                     out.append({"what": "enum encoding in the JSON body does not follow the numeric-enums option", "body": data[:200]})
                 # JSON uses the proto field names in lowerCamel
@@ -329,7 +347,12 @@ def check_call(call, binds, want, req_cls, numeric):
             out.append({"what": "query parameter is not a (lowerCamel) field of the request", "key": k})
             continue
         if body == "*" or f_top.name == body or any(f_top.name == pv.split(".")[0] and (pv == _dotted_name(rebuilt, k) or "." not in pv) for pv in vars_):
-            out.append({"what": "a field travels twice (query and path/body)", "key": k})
+            f_ = {"what": "a field travels twice (query and path/body)", "key": k}
+            if (verb, uri, body) != binds[0] and f_top.name in [pv.split(".")[0] for pv in vars_] and \
+                    f_top.name not in [pv.split(".")[0] for pv in uri_regex(binds[0][1])[1]]:
+                f_["known"] = "required-field-bound-by-additional-binding"
+            out.append(f_)
+            continue
         try:
             set_path(rebuilt, k, v)
         except Exception as e:      # noqa
